@@ -15,6 +15,7 @@ def run(ctx):
     _, disp = readers.stream_dispatch(prog, P)
     slots = readers.task_slots(prog, P)
     n = 0
+    readers.selector_identity(ctx, P)
     for kind, funs in sorted(disp.items()):
         if "file_fun" not in funs:
             ctx.finding(f"{P}.DISPATCH", PC + "::LevelDataStream.__init__", f"no file_fun stored for {kind} selectors")
